@@ -41,18 +41,18 @@ def main():
         dst = os.path.join(scratch, demo_dst)
         shutil.copy(os.path.join(src, demo), dst)
         pkgdir = "./" + os.path.dirname(demo_dst) if os.path.dirname(demo_dst) else "."
-        rc0, out0 = run(f"go test -count=1 -vet=off -run '(?i)demo' {pkgdir}", scratch)
+        rc0, out0 = run(f"go test -count=1 -vet=off -run '(?i)demo|TestZZ' {pkgdir}", scratch)
         rc, outp = run(["git", "apply", patch], scratch)
         if rc != 0:
             print("PATCH DOES NOT APPLY:", outp); meta["confirmed"] = False; return meta
         rcb, outb = run("go build ./...", scratch)
-        rc1, out1 = run(f"go test -count=1 -vet=off -run '(?i)demo' {pkgdir}", scratch)
+        rc1, out1 = run(f"go test -count=1 -vet=off -run '(?i)demo|TestZZ' {pkgdir}", scratch)
         os.remove(dst)
         missing = stable_tests_pass(scratch)
         # a failure of the package's own always-failing tests must not be mistaken for the demo failing
         demo_fail_with = rc1 != 0 and '--- FAIL' in out1
         meta["confirmation"] = {"demo_without_change_exit": rc0, "demo_with_change_exit": rc1, "builds_with_change": rcb == 0,
-                                "baseline_stable_tests_not_passing_with_change": missing[:5], "ran": [f"go test -count=1 -vet=off -run '(?i)demo' {pkgdir} (scratch worktree, without and with patch)", "go build ./...", "baseline: go test -mod=mod -json -vet=off -count=1 ./... compared with BASELINE.json stable_pass"]}
+                                "baseline_stable_tests_not_passing_with_change": missing[:5], "ran": [f"go test -count=1 -vet=off -run '(?i)demo|TestZZ' {pkgdir} (scratch worktree, without and with patch)", "go build ./...", "baseline: go test -mod=mod -json -vet=off -count=1 ./... compared with BASELINE.json stable_pass"]}
         meta["confirmed"] = rc0 == 0 and 'no tests to run' not in out0 and demo_fail_with and rcb == 0 and not missing
         print(f"[{sid}] demo without patch exit={rc0}, with patch exit={rc1}, builds={rcb==0}, stable tests missing={len(missing)} -> confirmed={meta['confirmed']}")
         if not meta["confirmed"]:
